@@ -71,6 +71,90 @@ def extract(repo=None, out_dir=None):
     return out, scratch, time.time() - t0
 
 
+NAME_TABLE = os.path.join(VERIF, "engine", "function_table.json")
+
+
+def _call_edges(crates):
+    """{callee path: {paths of the functions that call it}} (a closure's calls count for the function it sits in)"""
+    edges = {}
+
+    def walk_(n, owner):
+        st = [n]
+        while st:
+            x = st.pop()
+            if isinstance(x, dict):
+                if x.get("k") == "Call" and isinstance(x.get("fn"), str):
+                    edges.setdefault(x["fn"], set()).add(owner)
+                    if isinstance(x.get("rfn"), str):
+                        edges.setdefault(x["rfn"], set()).add(owner)
+                if x.get("k") == "FnRef" and isinstance(x.get("fn"), str):
+                    edges.setdefault(x["fn"], set()).add(owner)
+                st.extend(x.values())
+            elif isinstance(x, list):
+                st.extend(x)
+    for d in crates.values():
+        for b in d["bodies"]:
+            if "thir" in b:
+                owner = b["path"]
+                while "::{closure#" in owner:
+                    owner = owner[:owner.rindex("::{closure#")]
+                walk_(b["thir"], owner)
+    return edges
+
+
+def function_table(crates):
+    """What bin/refresh_function_table freezes from the reference tree: every function, its arity, who calls it."""
+    edges = _call_edges(crates)
+    out = []
+    for c, d in sorted(crates.items()):
+        for b in d["bodies"]:
+            if b["kind"] in ("Fn", "AssocFn"):
+                out.append({"path": b["path"], "crate": c, "name": b["name"], "self_ty": b.get("self_ty"), "arity": len(b.get("params") or []), "callers": sorted(edges.get(b["path"], ()))})
+    return out
+
+
+def renamed_functions(crates):
+    """{new path: old path}: a function of the reference tree (engine/function_table.json) that no longer exists under
+    its name, while exactly one function that the reference tree does not know - same crate, same number of parameters -
+    is now called from one of its former callers: a rename (or a move) of a private helper. The rules keep naming the
+    function as the reference tree does; the facts are read with the old name put back. Anything less clear-cut is left
+    alone and the rules that need the function fail closed."""
+    try:
+        with open(NAME_TABLE) as f:
+            table = json.load(f)
+    except (OSError, ValueError):
+        return {}
+    have = {}
+    for c, d in crates.items():
+        for b in d["bodies"]:
+            if b["kind"] in ("Fn", "AssocFn"):
+                have[b["path"]] = b
+    known_paths = {t["path"] for t in table}
+    known_names = {(t["crate"], t["name"], t.get("self_ty")) for t in table}
+    have_names = {(b_["crate_"], b_["name"], b_.get("self_ty")) for b_ in ({**b, "crate_": c} for c, d in crates.items() for b in d["bodies"] if b["kind"] in ("Fn", "AssocFn"))}
+    missing = [t for t in table if t["path"] not in have and (t["crate"], t["name"], t.get("self_ty")) not in have_names and t["callers"]]
+    if not missing:
+        return {}
+    crate_of = {}
+    for c, d in crates.items():
+        for b in d["bodies"]:
+            crate_of[b["path"]] = c
+    new = [b for p, b in have.items() if p not in known_paths and (crate_of[p], b["name"], b.get("self_ty")) not in known_names]
+    if not new:
+        return {}
+    edges = _call_edges(crates)
+    out, claimed = {}, {}
+    for t in missing:
+        cands = [b for b in new if crate_of[b["path"]] == t["crate"] and len(b.get("params") or []) == t["arity"] and (b.get("self_ty") or None) == (t.get("self_ty") or None)
+                 and edges.get(b["path"], set()) & set(t["callers"])]
+        if len(cands) == 1:
+            claimed.setdefault(cands[0]["path"], []).append(t["path"])
+    for newp, olds in claimed.items():
+        if len(olds) == 1:
+            out[newp] = olds[0]
+    return out
+
+
 class Facts:
     def __init__(self, directory):
         self.dir = directory
@@ -78,9 +162,25 @@ class Facts:
         self.bodies = {}     # path -> body
         self.by_name = {}    # last segment -> [body]
         self.adts = {}       # path -> adt
+        raw = {}
         for c in EXPECTED_CRATES:
             with open(os.path.join(directory, c + ".json")) as f:
-                d = json.load(f)
+                raw[c] = json.load(f)
+        self.renamed = renamed_functions(raw) if not os.environ.get("VERIF_NO_RENAMES") else {}
+        if self.renamed:
+            import re as _re
+            for c in list(raw):
+                text = json.dumps(raw[c])
+                for newp, oldp in self.renamed.items():
+                    text = _re.sub(_re.escape(json.dumps(newp)[1:-1]) + r"(?![A-Za-z0-9_])", lambda m_: json.dumps(oldp)[1:-1], text)
+                raw[c] = json.loads(text)
+                for b in raw[c]["bodies"]:
+                    for newp, oldp in self.renamed.items():
+                        if b["path"] == oldp:
+                            b["name"] = oldp.rsplit("::", 1)[1]
+        for c in EXPECTED_CRATES:
+            if True:
+                d = raw[c]
             self.crates[c] = d
             for b in d["bodies"]:
                 b["crate"] = c
@@ -91,8 +191,34 @@ class Facts:
                 self.adts[a["path"]] = a
         self.n_functions = sum(1 for b in self.bodies.values() if b["kind"] in ("Fn", "AssocFn", "Closure"))
         self._closures = None
+        self._owner_cache = {}
+        self._edges = None
+        try:
+            with open(NAME_TABLE) as f_:
+                self.reference_paths = {t["path"] for t in json.load(f_)}
+        except (OSError, ValueError):
+            self.reference_paths = set()
         global CURRENT
         CURRENT = self
+
+    def site_owner(self, path, _depth=0):
+        """The function a site inside `path` is reported under: `path` itself when the reference tree has it; for a helper
+        the reference tree does not know (code moved out of a function into a new private one) the function that calls it,
+        when exactly one does - a known finding recorded against `parse_x` stays recognisable after `parse_x` has been
+        split. Closures belong to the function they sit in."""
+        while "::{closure#" in path:
+            path = path[:path.rindex("::{closure#")]
+        if path in self._owner_cache:
+            return self._owner_cache[path]
+        out = path
+        if self.reference_paths and path not in self.reference_paths and _depth < 3:
+            if self._edges is None:
+                self._edges = _call_edges(self.crates)
+            callers = {c for c in self._edges.get(path, ()) if c != path}
+            if len(callers) == 1:
+                out = self.site_owner(next(iter(callers)), _depth + 1)
+        self._owner_cache[path] = out
+        return out
 
     # ---- lookup -----------------------------------------------------
     def fns(self, name=None, crate=None, self_ty=None, path_contains=None, kinds=("Fn", "AssocFn")):
